@@ -335,6 +335,13 @@ func enumC17(env *engine.Env, yield func(any) bool) {
 	if !yield(C17Case{Part: "schema-paths"}) {
 		return
 	}
+	// an undefined key at every mapping level: the parser's verdict and the schema's must agree (both reject)
+	_, levels := configShape()
+	for _, lv := range levels {
+		if !yield(C17Case{Part: "level", Path: lv.Path}) {
+			return
+		}
+	}
 	for _, e := range c17Enums {
 		for _, v := range e.values {
 			if !yield(C17Case{Part: "enum", Path: e.path, Value: v, Format: e.format}) {
@@ -392,6 +399,8 @@ func c17Docs(env *engine.Env) []map[string]any {
 
 func c17Doc(env *engine.Env, c C17Case) map[string]any {
 	switch c.Part {
+	case "level":
+		return docWith(c17Base(), append(append([]string{}, c.Path...), "zz_undefined_key"), "x")
 	case "path":
 		d := docWith(c17Base(), c.Path, leafSample(cfgLeaf{Path: c.Path, Kind: c.Kind}))
 		if len(c.Path) > 1 && c.Path[0] == "contents" && c.Path[len(c.Path)-1] != "dst" {
@@ -495,6 +504,26 @@ func checkC17(env *engine.Env, ci any) engine.Outcome {
 		}
 		if pOK && len(serrs) > 0 {
 			viol("schema:rejects-accepted-path:"+pathKey(c.Path), "a minimal document with %s is accepted by the parser but rejected by the schema: %v\n%s", key, serrs, fixture.Doc(d).YAML())
+		}
+	case "level":
+		d := docWith(c17Base(), append(append([]string{}, c.Path...), "zz_undefined_key"), "x")
+		pOK, _, serrs, harness := judge(d)
+		if harness != "" {
+			out.HarnessError = harness
+			return out
+		}
+		lvl := pathKey(c.Path)
+		if lvl == "" {
+			lvl = "(top)"
+		}
+		out.Nontrivial = true
+		out.Key = fmt.Sprintf("level:%s:%v:%v", lvl, pOK, len(serrs) == 0)
+		if pOK != (len(serrs) == 0) {
+			who := "the parser accepts it, the schema rejects it"
+			if !pOK {
+				who = "the parser rejects it, the schema accepts it"
+			}
+			viol("schema:undefined-key-verdicts-differ:"+lvl, "an undefined key at level %s: %s\n%s", lvl, who, fixture.Doc(d).YAML())
 		}
 	case "schema-paths":
 		sp := map[string]bool{}
